@@ -48,3 +48,13 @@ chk("C05", "static analysis: exact byte-set computation, MIR iteration decision 
     "definition of strip_prefix / trim_start_matches and their mirrors; 20 delegation rows tie starts_with/ends_with/strip_*/"
     "trim* (bytes and str, all four pattern kinds) to those loops with the right arguments, order and result mapping.",
     "Trusted: rustc MIR; the induction from the one-iteration tables to the whole loop is written (DESIGN.md), not mechanised.")
+chk("C04", "static analysis: matcher restart-completeness lint, scan-completeness iteration tables, delegation rules over MIR",
+    "The six byte matchers are checked two ways: the restart-completeness lint flags any single-pass matcher whose remaining "
+    "pattern is reset to the needle on a mismatch while the haystack cursor never rewinds (necessarily incomplete for needles "
+    "with borders - this reported the original defect); a candidate-offset search is accepted only if its iteration table is "
+    "a complete scan (starts at the extreme offset, moves by one, exits only on 'prefix test hit -> Some(offset)' or "
+    "'candidates exhausted -> None', hit test = the C05 prefix test on the haystack sliced at the candidate). The skip/keep "
+    "forms must be find/rfind composed with slice_from/slice_up_to at pos / pos+len, split_once/rsplit_once are decided as "
+    "tables, and 16 delegation rows tie the public str/bytes functions (all four pattern kinds) to the matchers.",
+    "Trusted: rustc MIR; C05's prefix test. A matcher of any other shape (e.g. KMP) is not decided: the SCAN floor then fails "
+    "closed. Reverse search with an empty pattern is outside the property.")
